@@ -713,6 +713,140 @@ fn run_u(line: &str) -> String {
     )
 }
 
+// (A) free-running absolute rounds on ONE counter, barrier-released, no scheduler:
+//   `A <rounds> <threads> <values per thread> <mode>`
+//   mode 0: the counter is re-based sequentially first (absolute(base), flush), then <threads> publishers call absolute() with
+//           distinct increasing values (each publish takes the next ticket: always at the frontier) while one thread flushes in a loop; after the join two more
+//           flushes. No increment ever runs, so no re-basing absolute races anything: none of the open classes applies.
+//           Per round: no delta may exceed (largest value - base), no prefix sum of the deltas may exceed it (current never moves
+//           backwards), and at quiescence the deltas add up to exactly largest value - base.
+//   mode 1: ONE thread publishes increasing absolutes while <threads> threads increment by 1, NO flush during the round (a single
+//           absolute thread cannot overlap two re-basings, and nothing can straddle): at quiescence the flushed delta must not
+//           exceed everything added (increments + largest absolute), i.e. last <= current.
+//   stdout: `A <rounds> <bad rounds> <flushes during publishing> <non-zero deltas during publishing> <deltas> | <first error>`
+fn run_a(line: &str) -> String {
+    use std::sync::atomic::{AtomicUsize, Ordering};
+    use std::sync::Barrier;
+    let f: Vec<&str> = line.split_whitespace().collect();
+    let rounds: usize = f[1].parse().unwrap();
+    let threads: usize = f[2].parse().unwrap();
+    let k: u64 = f[3].parse().unwrap();
+    let mode: u32 = f[4].parse().unwrap();
+    let d = Driver::new(Config {
+        aggressive: false,
+        histogram_sampling: false,
+        histogram_reservoir_size: 16,
+        histograms_as_distributions: false,
+        global_labels: Vec::new(),
+        global_prefix: None,
+        max_payload_len: 8192,
+        length_prefixed: false,
+    });
+    let (mut bad, mut during, mut nonzero, mut ndeltas) = (0u64, 0u64, 0u64, 0u64);
+    let mut first_err = String::new();
+    for r in 0..rounds {
+        let rc = d.raw_counter(&Key::from_name(format!("a{}", r)));
+        let t64 = threads as u64;
+        if mode == 0 {
+            let base = 1000u64 + r as u64;
+            rc.absolute(base);
+            let _ = rc.flush();
+            // every publish takes the next ticket: all threads always publish values at the frontier (distinct, globally increasing)
+            let maxv = base + k * t64;
+            let barrier = Arc::new(Barrier::new(threads + 1));
+            let finished = Arc::new(AtomicUsize::new(0));
+            let ticket = Arc::new(std::sync::atomic::AtomicU64::new(0));
+            let mut hs = Vec::new();
+            for _ in 0..threads {
+                let (rc, barrier, finished, ticket) = (rc.clone(), barrier.clone(), finished.clone(), ticket.clone());
+                hs.push(std::thread::spawn(move || {
+                    barrier.wait();
+                    for _ in 0..k {
+                        rc.absolute(base + 1 + ticket.fetch_add(1, Ordering::Relaxed));
+                    }
+                    finished.fetch_add(1, Ordering::SeqCst);
+                }));
+            }
+            let (rc2, barrier2, finished2) = (rc.clone(), barrier.clone(), finished.clone());
+            let fl = std::thread::spawn(move || {
+                barrier2.wait();
+                let mut ds: Vec<u64> = Vec::new();
+                while finished2.load(Ordering::SeqCst) < threads {
+                    ds.push(rc2.flush().0);
+                }
+                ds
+            });
+            for h in hs {
+                h.join().unwrap();
+            }
+            let mut ds = fl.join().unwrap();
+            during += ds.len() as u64;
+            nonzero += ds.iter().filter(|x| **x != 0).count() as u64;
+            ds.push(rc.flush().0);
+            ds.push(rc.flush().0);
+            ndeltas += ds.len() as u64;
+            let room = maxv - base;
+            let mut sum = 0u64;
+            let mut err = String::new();
+            for (i, x) in ds.iter().enumerate() {
+                if *x > room {
+                    err = format!("round {}: delta #{} = {} exceeds largest value - base = {}", r, i, x, room);
+                    break;
+                }
+                sum += *x;
+                if sum > room {
+                    err = format!("round {}: the first {} deltas add up to {} > largest value - base = {} (current moved backwards)", r, i + 1, sum, room);
+                    break;
+                }
+            }
+            if err.is_empty() && sum != room {
+                err = format!("round {}: at quiescence the deltas add up to {}, largest value - base = {}", r, sum, room);
+            }
+            if !err.is_empty() {
+                bad += 1;
+                if first_err.is_empty() {
+                    first_err = err;
+                }
+            }
+        } else {
+            let barrier = Arc::new(Barrier::new(threads + 1));
+            let mut hs = Vec::new();
+            for _ in 0..threads {
+                let (rc, barrier) = (rc.clone(), barrier.clone());
+                hs.push(std::thread::spawn(move || {
+                    barrier.wait();
+                    for _ in 0..k {
+                        rc.increment(1);
+                    }
+                }));
+            }
+            {
+                let (rc, barrier) = (rc.clone(), barrier.clone());
+                hs.push(std::thread::spawn(move || {
+                    barrier.wait();
+                    for i in 1..=k {
+                        rc.absolute(1000 + i);
+                    }
+                }));
+            }
+            for h in hs {
+                h.join().unwrap();
+            }
+            let d1 = rc.flush().0;
+            let d2 = rc.flush().0;
+            ndeltas += 2;
+            let bound = k * t64 + 1000 + k;
+            if d1 > bound || d2 != 0 {
+                bad += 1;
+                if first_err.is_empty() {
+                    first_err = format!("round {}: at quiescence flush returned {} then {}; everything ever added is {}", r, d1, d2, bound);
+                }
+            }
+        }
+    }
+    format!("A {} {} {} {} {} | {}", rounds, bad, during, nonzero, ndeltas, first_err)
+}
+
 // only the storage.rs sites take part in the schedule; the registry's own yield points (6xx, C06) inside
 // State::flush are passed through (the registry is not part of this model)
 fn c10_site(site: u32) -> bool {
@@ -730,7 +864,7 @@ fn main() {
         if line.trim().is_empty() {
             continue;
         }
-        let r = if line.starts_with('S') { run_s(&line) } else if line.starts_with('X') { run_x(&line) } else if line.starts_with('Y') { run_y(&line) } else if line.starts_with('E') { run_e(&line) } else if line.starts_with('U') { run_u(&line) } else { run_o(&line) };
+        let r = if line.starts_with('S') { run_s(&line) } else if line.starts_with('X') { run_x(&line) } else if line.starts_with('Y') { run_y(&line) } else if line.starts_with('E') { run_e(&line) } else if line.starts_with('U') { run_u(&line) } else if line.starts_with('A') { run_a(&line) } else { run_o(&line) };
         writeln!(w, "{}", r).unwrap();
     }
 }
